@@ -1,4 +1,100 @@
-import Geo.Transform
+/-
+  C07 — transformations preserve incidence and commute with join and meet.
+-/
+import Geo.Gen.Diagrams
+import Geo.Proofs.Lemmas
+import Mathlib.LinearAlgebra.Matrix.NonsingularInverse
 namespace Geo
-theorem C07_placeholder : (1 : Nat) = 1 := rfl
+open Spec
+
+/-! ## T07.1  incidence is invariant (every dimension, every invertible matrix) -/
+section
+open Matrix
+variable {n : Type} [Fintype n] [DecidableEq n] {F : Type} [Field F]
+
+/-- `(t⁻ᵀ l)·(t p) = l·p`: a hyperplane contains a point exactly when the images do -/
+theorem T07_1_incidence (t : Matrix n n F) (ht : IsUnit t.det) (l p : n → F) :
+    (t⁻¹)ᵀ.mulVec l ⬝ᵥ t.mulVec p = l ⬝ᵥ p := by
+  rw [Matrix.dotProduct_mulVec, Matrix.mulVec_transpose, Matrix.vecMul_vecMul, Matrix.nonsing_inv_mul _ ht,
+    Matrix.vecMul_one]
+
+/-- a point lies on a quadric exactly when its image lies on the image quadric: `(tp)ᵀ (t⁻ᵀ X t⁻¹) (tp) = pᵀ X p` -/
+theorem T07_1_quadric (t X : Matrix n n F) (ht : IsUnit t.det) (p : n → F) :
+    t.mulVec p ⬝ᵥ ((t⁻¹)ᵀ * X * t⁻¹).mulVec (t.mulVec p) = p ⬝ᵥ X.mulVec p := by
+  rw [Matrix.mulVec_mulVec, Matrix.mul_assoc, Matrix.mul_assoc, Matrix.nonsing_inv_mul _ ht, Matrix.mul_one,
+    ← Matrix.mulVec_mulVec, Matrix.dotProduct_mulVec, Matrix.vecMul_mulVec, ← Matrix.transpose_mul,
+    Matrix.nonsing_inv_mul _ ht, Matrix.transpose_one]
+  simp
+
+/-- a hyperplane is tangent (`hᵀ X⁻¹ h = 0`, dual quadric `t X⁻¹ tᵀ`) exactly when the images are -/
+theorem T07_1_tangent (t Y : Matrix n n F) (ht : IsUnit t.det) (h : n → F) :
+    (t⁻¹)ᵀ.mulVec h ⬝ᵥ (t * Y * tᵀ).mulVec ((t⁻¹)ᵀ.mulVec h) = h ⬝ᵥ Y.mulVec h := by
+  rw [Matrix.mulVec_mulVec, Matrix.mul_assoc, Matrix.mul_assoc, ← Matrix.transpose_mul, Matrix.nonsing_inv_mul _ ht,
+    Matrix.transpose_one, Matrix.mul_one, ← Matrix.mulVec_mulVec, Matrix.dotProduct_mulVec, Matrix.mulVec_transpose,
+    Matrix.vecMul_vecMul, Matrix.nonsing_inv_mul _ ht, Matrix.vecMul_one]
+end
+
+/-! ## T07.2  join and meet commute with a transformation: inverse-free cofactor identities over any commutative ring -/
+section
+variable {K : Type} [CommRing K]
+
+/-- 3×3 matrix action on a coordinate vector -/
+def mulVec3 (t : Nat → Nat → K) (p : Nat → K) : Nat → K := fun i => sumRange 3 fun j => t i j * p j
+def mulVec4 (t : Nat → Nat → K) (p : Nat → K) : Nat → K := fun i => sumRange 4 fun j => t i j * p j
+
+/-- cofactor matrix of a 3×3 matrix: `cof t i j = (−1)^{i+j} · minor_{ij}` (so `adj t = (cof t)ᵀ`) -/
+def cof3 (t : Nat → Nat → K) (i j : Nat) : K :=
+  let r (k : Nat) := (k + 1) % 3
+  let s (k : Nat) := (k + 2) % 3
+  t (r i) (r j) * t (s i) (s j) - t (r i) (s j) * t (s i) (r j)
+
+/-- `(t a) × (t b) = cof(t) (a × b)`: with `det t ≠ 0` the line through the images is the image `t⁻ᵀ (a×b)·det t`
+    of the line (plane: 2 points; dually 2 lines) -/
+theorem T07_2_cross_cofactor (t : Nat → Nat → K) (a b : Nat → K) :
+    ∀ i, i < 3 → cross (mulVec3 t a) (mulVec3 t b) i = sumRange 3 fun j => cof3 t i j * cross a b j := by
+  intro i hi
+  interval_cases i <;> simp [cross, mulVec3, cof3, sumRange] <;> ring
+
+/-- the cofactor matrix is `det t` times the inverse transpose: `Σ_i cof(t)_{ij} t_{ik} = det t · δ_{jk}` -/
+theorem T07_2_cofactor_is_inverse_transpose (t : Nat → Nat → K) :
+    ∀ j k, j < 3 → k < 3 →
+      (sumRange 3 fun i => cof3 t i j * t i k) = if j = k then det3 (t 0) (t 1) (t 2) else 0 := by
+  intro j k hj hk
+  interval_cases j <;> interval_cases k <;> simp [cof3, sumRange, det3] <;> ring
+
+/-- traced three-point join in space: `join(ta, tb, tc)` paired with `t x` equals `det t · join(a,b,c)·x`; so
+    `join(ta,tb,tc) = det t · t⁻ᵀ join(a,b,c)` (dually for three planes), and the 4×4 determinant is multiplicative -/
+theorem T07_2_det4_mul (t : Nat → Nat → K) (a b c d : Nat → K) :
+    det4 (mulVec4 t a) (mulVec4 t b) (mulVec4 t c) (mulVec4 t d)
+      = det4 (t 0) (t 1) (t 2) (t 3) * det4 a b c d := by
+  simp [det4, det3, mulVec4, sumRange]
+  ring
+
+theorem T07_2_join3_is_det (p q r x : Nat → K) :
+    match Gen.join_P3P3P3 with
+    | none => True
+    | some cs =>
+      (dot 4 (fun i => lastResult cs [vec p, vec q, vec r] [] [i]) x = det4 p q r x) ∨
+      (dot 4 (fun i => lastResult cs [vec p, vec q, vec r] [] [i]) x = - det4 p q r x) := by
+  simp only [Gen.join_P3P3P3]
+  first
+  | (left; traced_simp [det4, det3]; ring1)
+  | (right; traced_simp [det4, det3]; ring1)
+
+/-! ## T07.3  cross ratios: every bracket picks up `det t` -/
+
+theorem T07_3_bracket3 (t : Nat → Nat → K) (a b c : Nat → K) :
+    det3 (mulVec3 t a) (mulVec3 t b) (mulVec3 t c) = det3 (t 0) (t 1) (t 2) * det3 a b c := by
+  simp [det3, mulVec3, sumRange]
+  ring
+
+/-- hence the quotient of brackets is unchanged (stated without division: cross-multiplied) -/
+theorem T07_3_crossratio_invariant (t : Nat → Nat → K) (o a b c d : Nat → K) :
+    let br (x y : Nat → K) := det3 o x y
+    let br' (x y : Nat → K) := det3 (mulVec3 t o) (mulVec3 t x) (mulVec3 t y)
+    br' a c * br' b d * (br a d * br b c) = br a c * br b d * (br' a d * br' b c) := by
+  simp only [T07_3_bracket3]
+  ring
+
+end
 end Geo
